@@ -124,10 +124,11 @@ def get_branch_results_gas_numba(net, branch_pit, node_pit, from_nodes, to_nodes
 
     fluid = get_fluid(net)
     args_from, args_to, args_mean = [p_abs_from], [p_abs_to], [p_abs_mean]
+    # inlet temperature in flow direction, as in get_branch_results_gas
+    switched_t = branch_pit[:, FROM_NODE_T_SWITCHED].astype(np.bool_)
+    t_from = node_pit[from_nodes, TINIT_NODE]
+    t_from[switched_t] = node_pit[to_nodes[switched_t], TINIT_NODE]
     if hasattr(fluid.all_properties["compressibility"], "allow_2d"):
-        switched_t = branch_pit[:, FROM_NODE_T_SWITCHED].astype(np.bool_)
-        t_from = node_pit[from_nodes, TINIT_NODE]
-        t_from[switched_t] = node_pit[to_nodes[switched_t], TINIT_NODE]
         t_to = branch_pit[:, TOUTINIT]
         args_from.append(t_from)
         args_to.append(t_to)
@@ -137,7 +138,7 @@ def get_branch_results_gas_numba(net, branch_pit, node_pit, from_nodes, to_nodes
     comp_mean = fluid.get_compressibility(*args_mean)
 
     v_gas_from, v_gas_to, v_gas_mean, normfactor_from, normfactor_to, normfactor_mean = \
-        get_gas_vel_numba(node_pit, branch_pit, comp_from, comp_to, comp_mean, p_abs_from, p_abs_to,
+        get_gas_vel_numba(t_from, branch_pit, comp_from, comp_to, comp_mean, p_abs_from, p_abs_to,
                           p_abs_mean, v_mps)
 
     return v_gas_from, v_gas_to, v_gas_mean, p_abs_from, p_abs_to, p_abs_mean, normfactor_from, \
@@ -161,13 +162,12 @@ def get_pressures_numba(node_pit, from_nodes, to_nodes, v_mps, p_from, p_to):
 
 
 @jit(nopython=True)
-def get_gas_vel_numba(node_pit, branch_pit, comp_from, comp_to, comp_mean, p_abs_from, p_abs_to,
+def get_gas_vel_numba(t_from_in, branch_pit, comp_from, comp_to, comp_mean, p_abs_from, p_abs_to,
                       p_abs_mean, v_mps):
     v_gas_from, v_gas_to, v_gas_mean, normfactor_from, normfactor_to, normfactor_mean = \
         [np.empty_like(v_mps) for _ in range(6)]
-    from_nodes = branch_pit[:, FROM_NODE].astype(np.int32)
     for i in range(len(v_mps)):
-        t_from = node_pit[from_nodes[i], TINIT_NODE]
+        t_from = t_from_in[i]
         t_to = branch_pit[i, TOUTINIT]
         tm = (t_from + t_to) / 2
         numerator_from = np.divide(NORMAL_PRESSURE * t_from, NORMAL_TEMPERATURE)
